@@ -232,6 +232,11 @@ class Mixed:
                 ep.update(cip=base["cip"], cmac=base["cmac"], cport=base["cport"])
             elif pattern == "same-server":
                 ep.update(sip=base["sip"], smac=base["smac"], cport=base["cport"])
+            elif pattern == "mirrored" and i < 2:
+                # two connections between the same two hosts that mirror each other: A:p -> B:443 and B:p -> A:443
+                a, b = ("c", "s") if i == 0 else ("s", "c")
+                ep.update(cip=base[a + "ip"], cmac=base[a + "mac"], sip=base[b + "ip"], smac=base[b + "mac"],
+                          cport=base["cport"])
             conn = gen_tls.TcpConn(**ep)
             cut = random_cut(rng)
             flights, truth = sc.render()
@@ -254,6 +259,9 @@ class Mixed:
                     feats["endpoints"] = {"cip": base["cip"], "sip": qb["sip"], "cport": base["cport"]}
                 elif pattern == "same-server":
                     feats["endpoints"] = {"cip": qb["cip"], "sip": base["sip"], "cport": base["cport"]}
+                elif pattern == "mirrored" and j < 2:
+                    a, b = ("c", "s") if j == 0 else ("s", "c")
+                    feats["endpoints"] = {"cip": base[a + "ip"], "sip": base[b + "ip"], "cport": base["cport"] + 7}
             c, f = gen_quic.random_connection(rng, 100 + j, features=feats)
             self.quic.append({"conn": c, "features": f, "keylog": c.keylog_lines()})
             per.append([fr for _, _, fr in c.items])
